@@ -10,16 +10,18 @@
    have been repaired).  Proved: the push-down theorem
      eval_td ctx P =perm= [mu + ctx | mu in eval_bu P, mu compatible with ctx]
    for every context on the fragment {BGP, Join (lazy and hash), LeftJoin, Union,
-   Minus, Extend, Graph, Values, Filter} under syntactic side conditions that are
-   the negations of the trigger predicates of findings 1, 2, 3, 5, 6, 7, with
-   expressions restricted to those without EXISTS and without a literal-kind
-   question (finding 9) - errors are allowed (C04_pushdown), and the tie theorem
-   on that fragment for SELECT / SELECT DISTINCT / ASK / CONSTRUCT
-   (C04_spec_ok_model_partial).  Not covered by a proof: sub-SELECT and DISTINCT
-   inside a pattern (the solutions of a projection forget the context, the
-   push-down invariant does not hold for them as stated) and EXISTS; there the
-   agreement outside the trigger regions is supported by the correspondence runs
-   only. *)
+   Minus, Extend, Graph, Values, Filter, sub-SELECT as the right operand of a lazy
+   join, sub-SELECT / DISTINCT where no binding can be pushed in} under syntactic
+   side conditions that are the negations of the trigger predicates of findings
+   1, 2, 3, 4, 5, 6, 7; expressions: everything incl. (NOT) EXISTS over a pattern of
+   the fragment, errors allowed, comparisons restricted to = / != with an IRI
+   constant (no literal-kind question, finding 9) (C04_pushdown, C04_expressions),
+   and the tie theorem on that fragment for SELECT / SELECT DISTINCT / ASK /
+   CONSTRUCT (C04_spec_ok_model_partial).  Not covered by a proof: sub-SELECT in
+   other positions under pushed bindings (OPTIONAL { SELECT }, hash joins inside
+   OPTIONAL / EXISTS), DISTINCT under pushed bindings, comparisons between
+   variables or with literals; there the agreement outside the trigger regions
+   is supported by the correspondence runs only. *)
 From RV Require Import Sparql.Tie.
 
 (* the top-down BGP evaluation under ANY context, for ANY order of the triple
@@ -87,23 +89,39 @@ Print Assumptions C04_df_sound.
 (* C04_pushdown: on the fragment [frag] -
      BGP; Union; Values; Graph (IRI or variable);
      Join: lazy, or hash when [hash_ok] (= negation of the trigger of F-C04-3);
+       the right operand of a lazy join may be a sub-SELECT whose projection keeps
+       the context variables its pattern mentions (= neg. of F-C04-4);
+     Project / Distinct elsewhere: only where [pushed] is empty;
      LeftJoin when [leftjoin_ok]: the filter names no context variable that its
        sides may bind (= neg. of F-C04-5), p1._vars covers what the left side may
        bind and names no context variable the left side does not certainly bind
        (= neg. of F-C04-6);
      Minus when [minus_ok] (= negation of the trigger of F-C04-2);
      Extend when [extend_ok]: the target is new (= neg. of F-C04-1);
-     Filter / the expressions of Extend and LeftJoin: [expr_ok] (no EXISTS,
-       comparisons = and != with an IRI constant: no literal-kind question,
-       F-C04-9; errors allowed) and [vis_ok] (= neg. of F-C04-7) -
+     Filter / the expressions of Extend and LeftJoin: [efrag] (comparisons = and !=
+       with an IRI constant: no literal-kind question, F-C04-9; (NOT) EXISTS over a
+       pattern of the fragment; errors allowed) and [vis_ok] (= neg. of F-C04-7) -
    for EVERY incoming context whose variables are among [pushed]:
    top-down = bottom-up restricted to the context *)
-Theorem C04_pushdown : forall ds, graphs_nodup ds ->
+Theorem C04_pushdown : forall ds, graphs_nodup ds -> ds_nb ds ->
   forall p pushed, frag (map fst (ds_named ds)) pushed p = true ->
-  forall g c, NoDup g -> sol_wf c = true -> dom_in c pushed ->
+  forall g c, gok g -> sol_wf c = true -> dom_in c pushed ->
   Permutation (eval_td ds g c p) (join_ctx c (eval_bu ds g p)).
 Proof. exact pushdown. Qed.
 Print Assumptions C04_pushdown.
+
+(* the two expression evaluators agree (proved together with C04_pushdown by
+   mutual induction): for every expression of [efrag], incl. EXISTS / NOT EXISTS
+   whose pattern rdflib evaluates under the visible solution, whenever the two
+   solutions agree on the variables the expression mentions *)
+Theorem C04_expressions : forall ds, graphs_nodup ds -> ds_nb ds ->
+  forall e pushed, efrag (map fst (ds_named ds)) pushed e = true ->
+  forall g m1 full m2, gok g -> sol_wf m1 = true -> sol_wf m2 = true -> dom_in m1 pushed ->
+  (forall v, In v (evars e) -> lookup v m1 = lookup v m2) ->
+  (forall v t, In v (cmp_vars_e e) -> lookup v m2 = Some t -> nb t = true) ->
+  expr_td ds g m1 full e = expr_bu ds g m2 e.
+Proof. exact expr_agree. Qed.
+Print Assumptions C04_expressions.
 
 (* the tie theorem on that fragment (SELECT, SELECT DISTINCT, ASK, CONSTRUCT):
    the checker accepts the model's observation *)
@@ -141,6 +159,17 @@ Definition nv_case :=
                    (Filter false (Some [2; 4]) (ENot (ECmp OpEq (EVar 4) (ECon 1))) (BGP [(Vr 2, Tm 4, Vr 4)])))
              [1; 2; 3; 4])
     [(1, 4, 2); (2, 4, 3); (3, 4, 2)].
+Definition nv_case2 :=
+  W (Project (Join true (BGP [(Vr 1, Tm 4, Vr 2)])
+                (Project (Filter false (Some [2; 3]) (EExists true (BGP [(Vr 3, Tm 4, Vr 2)]))
+                                 (BGP [(Vr 2, Tm 4, Vr 3)])) [2; 3]))
+             [1; 2; 3])
+    [(1, 4, 2); (2, 4, 3); (3, 4, 2)].
+Example C04_nonvacuous2 :
+  case_wf nv_case2 = true /\ in_frag nv_case2 = true
+  /\ model_obs nv_case2 = RSel [[(1, 1); (2, 2); (3, 3)]; [(1, 2); (2, 3); (3, 2)]; [(1, 3); (2, 2); (3, 3)]].
+Proof. repeat split; vm_compute; reflexivity. Qed.
+
 Example C04_nonvacuous :
   case_wf nv_case = true /\ in_frag nv_case = true
   /\ model_obs nv_case = RSel
